@@ -61,6 +61,9 @@ func ReexecWithEngineEnv(streams bool) {
 	set("LUNAR_PROXY_METRICS_CONFIG", filepath.Join(root, "conf", "metrics.yaml"))
 	set("LUNAR_PROXY_METRICS_CONFIG_DEFAULT", filepath.Join(RepoRoot(), "proxy", "metrics.yaml"))
 	set("LUNAR_PROXY_POLICIES_CONFIG", filepath.Join(root, "policies.yaml"))
+	// the engine persists loaded-policies*.yaml here; without it the files land in the working directory,
+	// shared by every concurrently running batch process (a reader then sees a half-written file)
+	set("LUNAR_PROXY_CONFIG_DIR", root)
 	set("LUNAR_RETRY_REQUEST_TIMEOUT_SEC", "100")
 	set("LUNAR_SPOE_PROCESSING_TIMEOUT_SEC", "30")
 	set("LUNAR_SERVER_TIMEOUT_SEC", "60")
